@@ -156,7 +156,8 @@ func (b *builder) processAxis(root *axisNode, flags flag, props *builderProp) (q
 	case "self":
 		qyOutput = &selfQuery{Input: qyInput, Predicate: predicate}
 	case "namespace":
-		// haha,what will you do someting??
+		err = errors.New("xpath: the namespace axis is not supported")
+		return nil, err
 	default:
 		err = fmt.Errorf("unknown axe type: %s", root.AxisType)
 		return nil, err
@@ -705,6 +706,9 @@ func (b *builder) processNode(root node, flags flag, props *builderProp) (q quer
 		q, err = b.processFunction(root.(*functionNode), props)
 	case nodeOperator:
 		q, err = b.processOperator(root.(*operatorNode), props)
+	case nodeVariable:
+		err = fmt.Errorf("xpath: undeclared variable $%s", root.(*variableNode).Name)
+		return
 	case nodeGroup:
 		q, err = b.processNode(root.(*groupNode).Input, flagsEnum.None, props)
 		if err != nil {
